@@ -2899,9 +2899,12 @@ class PGPKey(Armorable, ParentRef, PGPObject):
                             alg, key = pk.decrypt_sk(comp._key)
                             decmsg = PGPMessage()
                             decmsg.parse(message.message.decrypt(key, alg))
-                            return decmsg
                         except Exception:
                             continue
+                        # the character set of the text is stated by the armor of the encrypted message
+                        if 'Charset' in message.ascii_headers:
+                            decmsg.ascii_headers.setdefault('Charset', message.ascii_headers['Charset'])
+                        return decmsg
                 raise PGPDecryptionError("None of the anonymous session key packets is for this key")
 
             raise PGPError("Cannot decrypt the provided message with this key")
